@@ -4,7 +4,7 @@
    is immutable and iter_ is a function of it, so a second iteration yields the same trace; the
    stateful stages are C10 (cache), C12/C13 (shuffles) and the tie iterates every object repeatedly. *)
 From Coq Require Import String List ZArith.
-Require Import LD.Base LD.Pipeline LD.Ref LD.PropsA.
+Require Import LD.Base LD.Pipeline LD.Ref LD.PropsA LD.CycleProofs.
 
 Theorem C01_iter_is_reference : forall d t,
   wfb d = true -> tbl d = Some t -> iter_ false d = (vals t, End).
@@ -15,3 +15,14 @@ Theorem C01_items_iter_is_reference : forall d t,
   wfb d = true -> tbl d = Some t -> keyedb d = true -> iter_ true d = (pairs t, End).
 Proof. exact items_iter_is_reference. Qed.
 Print Assumptions C01_items_iter_is_reference.
+
+(* cycle(): the first k examples of islice(ds.cycle(), k) are the first k of the endless repetition of the pipeline's
+   reference (an empty pass cannot finish: the model reports it as an error marker) *)
+Theorem C01_cycle_is_repetition : forall d t k, wfb d = true -> tbl d = Some t -> t <> nil ->
+  take_cycle false k d = (firstn k (concat (repeat (vals t) (S k))), End).
+Proof. exact cycle_is_repetition. Qed.
+Print Assumptions C01_cycle_is_repetition.
+Theorem C01_cycle_items_is_repetition : forall d t k, wfb d = true -> tbl d = Some t -> t <> nil -> keyedb d = true ->
+  take_cycle true k d = (firstn k (concat (repeat (pairs t) (S k))), End).
+Proof. exact cycle_items_is_repetition. Qed.
+Print Assumptions C01_cycle_items_is_repetition.
